@@ -1,7 +1,242 @@
-//! C16 — not built yet (stub keeps the registry stable while modules are written in parallel).
+//! C16 — meaning is invariant under renaming, layout and agreeing annotations.
 
-use crate::engine::case::Prop;
+use crate::engine::case::*;
+use crate::engine::rng::hash64;
+use crate::engine::tape::Gen;
+use crate::gens::prog::{self, Layout, Prog, PG};
+use crate::props::c01::{self, gen_inputs};
+use crate::runners::exec::{self, canon, Exec, Inputs, RunOpts};
+use crate::runners::front;
+use serde_json::{json, Value};
+use std::sync::OnceLock;
+
+pub struct C16;
 
 pub fn prop() -> Option<&'static dyn Prop> {
-    None
+    Some(&C16)
+}
+
+/// `self` is desugared into an ordinary variable named `feed_idN`; a user variable of that name
+/// shadows it (known finding)
+pub const KF_FEED_ID: &str = "C16-user-name-shadows-self-variable";
+/// a user identifier named `_mimium_global` collides with the compiler's global label (known finding)
+pub const KF_GLOBAL_NAME: &str = "C16-user-name-mimium-global";
+/// `let {a = x} = ({a = 1.0})` — a parenthesised record on the right of a record pattern crashes
+pub const KF_PAREN_RECORD: &str = "C16-parenthesised-record-pattern-rhs";
+
+const ORDINARY: &[&str] = &["alpha", "beta", "gamma", "delta", "omega", "kappa", "sigma", "theta", "lambda1", "mu", "nu", "xi", "rho", "tau", "phi", "chi", "psi", "zeta", "eta", "iota"];
+const ODD: &[&str] = &["_x", "x_", "x0", "X", "a_b_c", "__", "_1", "dsp_", "self_", "now_", "float_", "fn_", "Let", "selfish", "nowhere", "iff", "mem_", "delay1"];
+const COMPILER_LIKE: &[&str] = &[
+    "lambda_0", "lambda_1", "lambda_2", "feed_id0", "feed_id1", "feed_id2", "__dt0", "__dt1", "__lambda_arg_0", "__lambda_arg_1", "record_update_temp", "_mimium_global", "dsp_0", "main_", "_mimium_main", "closure_0", "state_0", "tmp_0", "upv_0", "phi_0",
+];
+
+fn reserved() -> &'static Vec<String> {
+    static R: OnceLock<Vec<String>> = OnceLock::new();
+    R.get_or_init(|| {
+        let mut v: Vec<String> = front::builtin_types().iter().map(|(s, _)| s.as_str().to_string()).collect();
+        for k in ["fn", "macro", "self", "now", "samplerate", "let", "letrec", "if", "else", "match", "float", "int", "string", "struct", "include", "stage", "main", "mod", "use", "pub", "type", "alias", "rec", "_", "dsp", "mem", "delay", "sin", "cos", "tan", "sinh", "cosh", "tanh", "atan", "atan2", "sqrt", "abs", "log", "min", "max", "ceil", "floor", "round", "pow", "not", "asin", "acos", "probe", "probeln", "neg", "add", "sub", "mult", "div", "modulo", "eq", "ne", "lt", "le", "gt", "ge", "and", "or", "exp", "print", "println", "len", "split_head", "split_tail", "prepend", "lift_f"] {
+            v.push(k.to_string());
+        }
+        v
+    })
+}
+
+#[derive(Clone, Debug)]
+struct Transform {
+    rename: Vec<(String, String)>,
+    layout: Layout,
+    compiler_like: usize,
+}
+
+fn gen_transform(p: &Prog, g: &mut Gen, allow_feed_id: bool, allow_global_name: bool, bare_record_rhs: bool) -> Transform {
+    let names = prog::binders(p);
+    let mut rename = vec![];
+    let mut used: Vec<String> = vec![];
+    let mut compiler_like = 0;
+    let mode = g.weighted(&[2, 3, 3, 1]); // none, ordinary, mixed with compiler-like, all compiler-like
+    for (i, n) in names.iter().enumerate() {
+        if mode == 0 {
+            break;
+        }
+        let pool: &[&str] = match (mode, g.below(4)) {
+            (1, _) => ORDINARY,
+            (2, 0) => COMPILER_LIKE,
+            (2, 1) => ODD,
+            (2, _) => ORDINARY,
+            _ => COMPILER_LIKE,
+        };
+        let mut cand = pool[g.usize_below(pool.len())].to_string();
+        if !allow_feed_id && cand.starts_with("feed_id") {
+            cand = format!("feedid{}", i);
+        }
+        if !allow_global_name && cand == "_mimium_global" {
+            cand = format!("_mimium_global{}", i);
+        }
+        if used.contains(&cand) || reserved().contains(&cand) || names.contains(&cand) {
+            cand = format!("{cand}_{i}");
+        }
+        if COMPILER_LIKE.iter().any(|c| cand.starts_with(c)) {
+            compiler_like += 1;
+        }
+        used.push(cand.clone());
+        rename.push((n.clone(), cand));
+    }
+    let layout = Layout { extra_parens: g.bool(1, 3), annotate_all: g.bool(1, 3), indent: *g.pick(&[0usize, 1, 4, 8]), comments: g.bool(1, 3), blank_lines: g.usize_below(3), keep_record_let_rhs_bare: bare_record_rhs };
+    Transform { rename, layout, compiler_like }
+}
+
+fn apply(p: &Prog, t: &Transform) -> String {
+    let map = t.rename.clone();
+    let q = prog::rename_prog(p, &move |n: &str| map.iter().find(|(a, _)| a == n).map(|(_, b)| b.clone()).unwrap_or_else(|| n.to_string()));
+    prog::render(&q, &t.layout)
+}
+
+fn outcome(src: &str, inputs: &Inputs, n: u64) -> Result<Vec<Vec<u64>>, String> {
+    match exec::run_vm(src, inputs, &RunOpts { n, sched: false, want_state: false, want_counts: false, want_trace: false }) {
+        Exec::Ran(a) => Ok(a.samples),
+        Exec::Rejected(d) => Err(format!("rejected: {}", d.first().map(|x| x.message.clone()).unwrap_or_default())),
+        Exec::NoIo => Err("no-io".into()),
+        Exec::Panic(s, p) => Err(format!("panic {s}: {}", p.signature())),
+        Exec::Error(s, e) => Err(format!("error {s}: {e}")),
+    }
+}
+
+fn finish(orig: &str, trans: &str, inputs: &Inputs, n: u64, classes: Vec<String>, nontrivial: bool, cx: &Cx) -> CaseResult {
+    let key = format!("{orig}\u{1}{trans}\u{1}{}\u{1}{n}", inputs.describe());
+    let hash = hash64(key.as_bytes());
+    let direct = json!({"original": orig, "transformed": trans, "input_kind": inputs.kind, "input_scale": inputs.scale, "n": n});
+    if cx.dry {
+        let mut r = CaseResult::discard("dry");
+        r.render = Some(direct.clone());
+        r.direct = Some(direct);
+        return r;
+    }
+    let a = outcome(orig, inputs, n);
+    let b = outcome(trans, inputs, n);
+    let mut r = match (&a, &b) {
+        (Err(x), Err(y)) => {
+            // both fail: same kind of failure is required only at the level accept/reject
+            let (ka, kb) = (x.split(':').next().unwrap_or(""), y.split(':').next().unwrap_or(""));
+            if ka.starts_with("panic") || kb.starts_with("panic") {
+                return CaseResult::discard("crash"); // C03's subject
+            }
+            let _ = (ka, kb);
+            CaseResult::held(hash)
+        }
+        (Ok(_), Err(y)) => {
+            if y.starts_with("panic") {
+                CaseResult::fail(hash, "c16:transformed-crashes", format!("the original runs, the transformed program: {y}"))
+            } else {
+                CaseResult::fail(hash, "c16:transformed-rejected", format!("the original compiles and runs, the transformed program: {y}"))
+            }
+        }
+        (Err(x), Ok(_)) => {
+            if x.starts_with("panic") {
+                return CaseResult::discard("crash");
+            }
+            CaseResult::fail(hash, "c16:transformed-accepted", format!("the original is refused ({x}) but the transformed program runs"))
+        }
+        (Ok(x), Ok(y)) => {
+            let mut f = None;
+            'o: for (t, (p, q)) in x.iter().zip(y.iter()).enumerate() {
+                if p.len() != q.len() {
+                    f = Some((t, usize::MAX));
+                    break;
+                }
+                for ch in 0..p.len() {
+                    if canon(p[ch]) != canon(q[ch]) {
+                        f = Some((t, ch));
+                        break 'o;
+                    }
+                }
+            }
+            match f {
+                Some((t, ch)) => CaseResult::fail(hash, "c16:output-changed", format!("sample {t} channel {ch}: original {:?}, transformed {:?}", x[t].get(ch).map(|b| f64::from_bits(*b)), y[t].get(ch).map(|b| f64::from_bits(*b)))),
+                None => CaseResult::held(hash),
+            }
+        }
+    };
+    r.classes = classes;
+    if a.is_ok() {
+        r.classes.push("original-runs".into());
+    }
+    r.nontrivial = (nontrivial && a.is_ok() && orig != trans) || r.is_fail();
+    if cx.render || r.is_fail() {
+        r.render = Some(direct.clone());
+    }
+    r.direct = Some(direct);
+    r
+}
+
+impl Prop for C16 {
+    fn id(&self) -> &'static str {
+        "C16"
+    }
+    fn spaces(&self, tier: Tier) -> Vec<Space> {
+        match tier {
+            Tier::Quick => vec![Space { name: "gen", size: 5000, exhaustive: false, chunk: 200, case_timeout_s: 60.0, what: "generated programs x (consistent renaming into ordinary / odd / compiler-like names, redundant parentheses, agreeing annotations, comments, indentation, blank lines)" }],
+            Tier::Thorough => vec![Space { name: "gen", size: 150_000, exhaustive: false, chunk: 1000, case_timeout_s: 60.0, what: "generated programs x source-to-source transformations" }],
+        }
+    }
+    fn run(&self, _space: &str, _index: u64, g: &mut Gen, cx: &Cx) -> CaseResult {
+        let (mut cfg, off) = c01::pcfg(cx);
+        // WASM-only switches do not matter (VM comparison)
+        cfg.modulo = true;
+        cfg.multi_maker_instances = true;
+        cfg.capture_destructured = true;
+        cfg.tuple_globals = true;
+        let mut pg = PG::new(g, cfg);
+        let p = pg.program();
+        let mut classes = pg.feat.classes();
+        let t = gen_transform(&p, g, !cx.excluded(KF_FEED_ID), !cx.excluded(KF_GLOBAL_NAME), cx.excluded(KF_PAREN_RECORD));
+        let orig = prog::render(&p, &Layout::default());
+        let trans = apply(&p, &t);
+        let inputs = gen_inputs(g);
+        let n = *g.pick(&[4u64, 8, 16]);
+        if !t.rename.is_empty() {
+            classes.push("t:rename".into());
+        }
+        if t.compiler_like > 0 {
+            classes.push("t:compiler-like-names".into());
+        }
+        if t.layout.extra_parens {
+            classes.push("t:parens".into());
+        }
+        if t.layout.annotate_all {
+            classes.push("t:annotations".into());
+        }
+        if t.layout.comments {
+            classes.push("t:comments".into());
+        }
+        if t.layout.indent != 0 || t.layout.blank_lines > 0 {
+            classes.push("t:whitespace".into());
+        }
+        let nt = !t.rename.is_empty() || t.layout.extra_parens || t.layout.annotate_all || t.layout.comments;
+        let mut r = finish(&orig, &trans, &inputs, n, classes, nt, cx);
+        for id in off {
+            r.count(&format!("generator_switch_off:{id}"), 1);
+        }
+        for id in [KF_FEED_ID, KF_GLOBAL_NAME, KF_PAREN_RECORD] {
+            if cx.excluded(id) {
+                r.count(&format!("generator_switch_off:{id}"), 1);
+            }
+        }
+        r
+    }
+    fn run_direct(&self, input: &Value, cx: &Cx) -> Option<CaseResult> {
+        let o = input.get("original")?.as_str()?;
+        let t = input.get("transformed")?.as_str()?;
+        let inputs = Inputs { kind: input.get("input_kind").and_then(|v| v.as_u64()).unwrap_or(1) as u8, scale: input.get("input_scale").and_then(|v| v.as_f64()).unwrap_or(1.0) };
+        let n = input.get("n").and_then(|v| v.as_u64()).unwrap_or(4);
+        Some(finish(o, t, &inputs, n, vec![], true, cx))
+    }
+    fn rule(&self) -> String {
+        "Cases are (program, transformation, input stream, run length). The program AST from the core-language generator is rendered twice: canonically, and after a composed transformation — a consistent injective renaming of every user identifier (functions, parameters, locals, globals, lambda parameters; never `dsp`, keywords or builtins) into ordinary names, odd names (`_x`, `x_`, `X`, `selfish`, ...) or names shaped like compiler-generated ones (`lambda_0`, `__dt0`, `__lambda_arg_0`, `record_update_temp`, `_mimium_global`, `feed_id0` when that finding's switch is on), redundant parentheses around every compound expression, annotations of every parameter and return type with the generator's own types, a comment after every statement, other indentation and blank lines. Oracle (metamorphic, VM): both are accepted or both are refused, and when accepted all output words are bitwise equal. Non-trivial = the original runs and the transformed text differs by a renaming, parentheses, annotations or comments.".into()
+    }
+    fn assumptions(&self) -> Vec<String> {
+        vec!["the annotations added are the generator's own types, which are the types the program was built with".into(), "record field names are not renamed".into()]
+    }
+    fn required_classes(&self, _tier: Tier) -> Vec<&'static str> {
+        vec!["original-runs", "t:rename", "t:compiler-like-names", "t:parens", "t:annotations", "t:comments", "t:whitespace"]
+    }
 }
